@@ -44,6 +44,7 @@ def inv_assume(ctx, g, view, nodes, pairs, shape_pairs=None):
     ctx.assume(spec.shape_h(g, nodes, list(pairs) + list(shape_pairs or []), quantified=not getattr(ctx, 'bounded', False)), 'shape')
     ctx.assume(spec.tte_h(g), 'tte')
     for (a, b) in pairs:
+        ctx.assume(spec.canon_h(g, a, b), 'canon')
         ctx.assume(spec.snapkeys_h(g, a, b), 'snapkeys')
         ctx.assume(events_h(g, a, b), 'events')
 
@@ -61,7 +62,9 @@ def post_kernel(contract, ctx, c):
     ctx.oblige('C08.snapshot_ids_are_accepted_adds', g['SKey'][q] == z3.Or(pre['SKey'][q], q == c.t), tags=T,
                use=('shape', 'snapkeys'))
     for name, f in spec.snapkeys_goals(g, x, y, q).items():
-        ctx.oblige('C08.' + name, f, tags=T, use=('shape', 'snapkeys'))
+        ctx.oblige('C08.' + name, f, tags=T, use=('shape', 'canon', 'snapkeys'))
+    for name, f in spec.canon_goals(g, x, y).items():
+        ctx.oblige('C08.timeline.' + name, f, tags=T, use=('shape', 'canon'))
     for name, f in events_goals(g, x, y, q, op).items():
         ctx.oblige('C08.events.' + name, f, tags=T, use=('shape', 'events', 'tte'))
     for name, f in spec.tte_goals(g, q).items():
